@@ -26,6 +26,7 @@ import (
 
 	sdk "github.com/pokt-network/pocket-core/types"
 	appsTypes "github.com/pokt-network/pocket-core/x/apps/types"
+	govTypes "github.com/pokt-network/pocket-core/x/gov/types"
 	nodesTypes "github.com/pokt-network/pocket-core/x/nodes/types"
 	pocketTypes "github.com/pokt-network/pocket-core/x/pocketcore/types"
 	abci "github.com/tendermint/tendermint/abci/types"
@@ -180,6 +181,17 @@ func buildTx(s *chainsim.Sim, t map[string]interface{}) []byte {
 		msg = &nodesTypes.MsgBeginUnstake{Address: addrOf(s, tx.Str("node")), Signer: addrOf(s, signer)}
 	case "node_unjail":
 		msg = &nodesTypes.MsgUnjail{ValidatorAddr: addrOf(s, tx.Str("node")), Signer: addrOf(s, signer)}
+	case "upgrade":
+		var fs []string
+		if l, ok := tx["features"].([]interface{}); ok {
+			for _, f := range l {
+				fs = append(fs, fmt.Sprint(f))
+			}
+		}
+		msg = &govTypes.MsgUpgrade{Address: addrOf(s, tx.Str("from")), Upgrade: govTypes.Upgrade{Height: int64(tx.Int("height")), Version: tx.Str("version"), Features: fs}}
+		if signer == "" {
+			signer = tx.Str("from")
+		}
 	default:
 		hx.Fatal("vh-rel: unknown tx kind %q", tx.Str("kind"))
 	}
